@@ -47,6 +47,8 @@ CONFIGS = {
     "two-experiments": dict(n_chroms=2, extra=[], experiments=("EXA", "EXB")),
     # the stages a run leaves out leave files out as well: quantification only, grouped by a BAM tag, with exon / intron tables
     "no-model-construction": dict(n_chroms=2, extra=["--no_model_construction", "--count_exons", "--read_group", "tag:RG"]),
+    # the reference as an ordinary gzip file (not BGZF): IsoQuant works on an uncompressed copy that it writes into the output folder
+    "gz-reference": dict(n_chroms=2, extra=[], ref_gz=True),
     # many options away from their defaults, among them list-valued and derived ones: what .params stores is read back and every derived
     # setting is derived again by the resumed run
     "many-options": dict(n_chroms=2, extra=["--bam_tags", "RG,NM", "--matching_strategy", "precise", "--model_construction_strategy", "sensitive_ont",
@@ -73,6 +75,11 @@ def make_inputs(cfg, d, seed):
                 f.write("%s\tgrp%d\n" % (r.name, i % 3))
         i = extra.index("--read_group")
         extra[i + 1] = "file:%s:0:1:\t" % tbl
+    if cfg.get("ref_gz"):
+        import gzip
+        os.makedirs(os.path.join(d, "gz"), exist_ok=True)
+        with open(os.path.join(d, "g.fa"), "rb") as f_, gzip.open(os.path.join(d, "gz", "g.fa.gz"), "wb") as g_:
+            g_.write(f_.read())
     if cfg.get("rg_file_name"):
         extra += ["--read_group", "file_name"]
         # the file is passed through a symbolic link with another name (a staging folder): the group is named after what stands on the command line
@@ -87,6 +94,13 @@ def args_for(cfg, d, out, extra, saves=None):
                           bam_list=os.path.join(d, "exps.list") if cfg.get("experiments") else None)
     if cfg.get("rg_file_name"):
         a[a.index("--bam") + 1] = os.path.join(d, "staged", "ctrl.bam")
+    if cfg.get("ref_gz"):
+        # every run gets its own copy of the compressed reference: the FASTA index is built NEXT TO the reference file, and the runs of this
+        # check execute in parallel (an index half-written by a killed run must not be seen by another run)
+        gzd = os.path.join(os.path.dirname(out), "gzin_" + os.path.basename(out))      # not under the output folder: crash points are mutations there
+        if not os.path.isdir(gzd):
+            shutil.copytree(os.path.join(d, "gz"), gzd)
+        a[a.index("-r") + 1] = os.path.join(gzd, "g.fa.gz")
     if cfg.get("gz"):
         a.remove("--no_gzip")
     if saves:
@@ -103,7 +117,9 @@ def run(chk, scratch):
                 "directory of a -t 1 run, after .params was written; the run is killed (os._exit) immediately before it and continued with --resume (every second point with --threads 3); "
                 "quick: every distinct call site (function, operation, file kind) of 2 configurations once + random fill; thorough: every crash "
                 "point of every configuration + multi-process kills. non-trivial = distinct call sites crashed at")
-    conf_names = list(CONFIGS) if thorough else ["multi-chrom-groups-exons", "annotation-free", "force-over-previous-run", "from-saved-assignments", "two-experiments", "inferred-genes", "file-name-groups-one-file", "many-options", "no-model-construction"]
+    conf_names = list(CONFIGS) if thorough else ["multi-chrom-groups-exons", "annotation-free", "force-over-previous-run", "from-saved-assignments", "two-experiments", "inferred-genes", "file-name-groups-one-file", "many-options", "no-model-construction", "gz-reference"]
+    if os.environ.get("VERIF_C07_CONFIGS"):       # debugging aid: restrict the run to some configurations (the verdict is then only about those)
+        conf_names = [c for c in conf_names if c in os.environ["VERIF_C07_CONFIGS"].split(",")]
     total_points = 0
     executed = 0
     sites_seen = set()
@@ -190,8 +206,11 @@ def run(chk, scratch):
 
         last_of_site = {ns[-1] for ns in by_site.values() if len(ns) > 1}
 
+        # files a resumed run takes over when it finds them (copies or conversions of its inputs): killed right after they were created
+        reusable = {e["n"] for e in points if os.path.basename(e["path"]).lower().endswith((".fa", ".fasta", ".fna", ".db", ".bed", ".gtf", ".fai"))}
+
         def after(n):
-            return n in lockish or n in last_of_site or n % 3 == 2
+            return n in lockish or n in last_of_site or n in reusable or n % 3 == 2
 
         def one(n):
             out = os.path.join(d, "crash%d" % n)
